@@ -393,10 +393,10 @@ def judge(run, c, findings):
         # duplicate (instant, base, eq): outside the quantifier of the property; statistics only
         return "duplicate-keys:" + ("model-agrees" if bits & 1 else "model-differs")
     if not (bits & 2):
-        # F12 (self pair) and F19 (line stamped Timestamp::MAX) are fixed: such inputs are ordinary cases now
+        # F12 / F21 (self pair) and F19 (line stamped Timestamp::MAX) are fixed: such inputs are ordinary cases now
         run.violation("price conversion contradicts the specification (rate = latest applicable entry of the pair into the report "
                       "commodity; postings without commodity / in the report commodity / without applicable rate unchanged; "
-                      "metadata = cache entries of the used commodities)",
+                      "metadata = exactly the rates applied: used commodities other than the report commodity with an applicable entry)",
                       replay_obj(c, c["impl"]))
         return "violation"
     if not (bits & 1):
@@ -447,7 +447,7 @@ def main(run):
             if c["bits"] & 16:
                 n_self += 1
             if isinstance(c["impl"], dict) and c["rc"] is not None:
-                # residual of F12 (see C07_metadata_all_applied_refuted): a record target -> target is listed but never applied
+                # F21 (fixed): a record target -> target must not be listed (the metadata oracle rejects it); expected 0
                 n_listed_unapplied += sum(1 for m in c["impl"].get("metadata", []) if m["source"] == c["rc"])
             if len(run.cov["samples"]) < 3 and c["src"] == "gen" and c.get("stage") == "done":
                 run.cov["samples"].append({"lookup_type": c["lt"], "report_commodity": c["rc"], "before_time": c["before"],
@@ -458,12 +458,12 @@ def main(run):
                        "0-6 lines per pair in shuffled order with date-only / local / Z / offset / fractional time stamps, comments and blank lines; "
                        "transaction and given-time instants equal to, 1 ns around, before and after the entries; every posting on its own account so that "
                        "register totals and balance sums are the converted postings; all three lookups and none; each distinct-key file is run a second "
-                       "time with its lines permuted; separate streams: self pair of the report commodity (F12, fixed), duplicate keys (statistics only), configuration errors. "
+                       "time with its lines permuted; separate streams: self pair of the report commodity (F12/F21, fixed), duplicate keys (statistics only), configuration errors. "
                        "non-trivial = at least one posting converted; distinct = distinct converted outputs")
     run.violations.sort(key=lambda v: not v[2])      # violations with a concrete failing input first
     run.notes.update({"stages": stages, "verdict_classes": verdicts, "tags": tagc, "lookup_types": lts,
                       "postings_observed": n_posts, "postings_converted": n_conv, "permuted_file_runs": n_perm,
-                      "files_with_self_pair": n_self, "metadata_records_listed_but_never_applied(self pair)": n_listed_unapplied})
+                      "files_with_self_pair": n_self, "metadata_records_target_to_target": n_listed_unapplied})
     return run.finish(info)
 
 
